@@ -32,6 +32,31 @@ const PROFILES: [(&str, Profile); 6] = [
     ("q_a_1", Profile::Qa),
 ];
 
+/// A hand-written `ConfigProfile` (the derive macro does not allow every name, e.g. names with a dot).
+#[derive(Debug, Clone, Copy, PartialEq, Eq)]
+pub struct HandProfile(&'static str);
+
+const HAND_PROFILES: [&str; 6] = ["staging.eu", "staging", "prod.v2.us", "prod.v2", "plain", "a.b"];
+
+impl std::str::FromStr for HandProfile {
+    type Err = String;
+    fn from_str(s: &str) -> Result<Self, String> {
+        HAND_PROFILES.iter().find(|p| **p == s).map(|p| HandProfile(p)).ok_or_else(|| format!("`{s}` is not a valid profile"))
+    }
+}
+
+impl AsRef<str> for HandProfile {
+    fn as_ref(&self) -> &str {
+        self.0
+    }
+}
+
+impl ConfigProfile for HandProfile {}
+
+fn profile_name(c: &Case, i: usize) -> &'static str {
+    if c.hand_profile { HAND_PROFILES[i % HAND_PROFILES.len()] } else { PROFILES[i % PROFILES.len()].0 }
+}
+
 const SEGS: [&str; 7] = ["alpha", "db", "server_cfg", "x1", "port", "pool", "must"];
 
 #[derive(Clone, Debug, Serialize, Deserialize, PartialEq)]
@@ -68,6 +93,9 @@ pub struct Case {
     pub profile_file_exists: bool,
     /// unrelated PX_-less and other-prefixed variables that must be ignored
     pub noise_env: bool,
+    /// the profile type is a hand-written `ConfigProfile` whose names may contain dots
+    #[serde(default)]
+    pub hand_profile: bool,
 }
 
 fn key_paths(c: &Case) -> Vec<(Vec<String>, u8)> {
@@ -122,6 +150,8 @@ fn yaml(tree: &BTreeMap<Vec<String>, String>) -> String {
 struct ChildArgs {
     dir: Option<String>,
     explicit_profile: Option<u8>,
+    #[serde(default)]
+    hand: bool,
 }
 
 #[derive(Debug, Deserialize)]
@@ -133,6 +163,22 @@ struct Typed {
 /// Entry point of the child process: `rtprops C18-child '<json>'`.
 pub fn child(arg: &str) -> ! {
     let a: ChildArgs = serde_json::from_str(arg).expect("child args");
+    if a.hand {
+        let mk = || {
+            let mut l = ConfigLoader::<HandProfile>::new();
+            if let Some(d) = &a.dir {
+                l = l.configuration_dir(PathBuf::from(d));
+            }
+            if let Some(p) = a.explicit_profile {
+                l = l.profile(HandProfile(HAND_PROFILES[p as usize % HAND_PROFILES.len()]));
+            }
+            l
+        };
+        let all: Result<Value, String> = mk().load::<Value>().map_err(|e| chain(&e));
+        let typed: Result<String, String> = mk().load::<Typed>().map(|t| t.must).map_err(|e| chain(&e));
+        println!("{}", json!({"all": all, "typed": typed}));
+        std::process::exit(0);
+    }
     let mk = || {
         let mut l = ConfigLoader::<Profile>::new();
         if let Some(d) = &a.dir {
@@ -165,7 +211,7 @@ static COUNTER: std::sync::atomic::AtomicUsize = std::sync::atomic::AtomicUsize:
 pub fn oracle(c: &Case) -> CaseResult {
     let mut info = CaseInfo::default();
     let keys = key_paths(c);
-    let (pname, _) = PROFILES[c.profile as usize % PROFILES.len()];
+    let pname = profile_name(c, c.profile as usize);
     let n = COUNTER.fetch_add(1, std::sync::atomic::Ordering::Relaxed);
     let root = PathBuf::from(format!("/verif/.work/c18/{}-{}", std::process::id(), n));
     let _ = std::fs::remove_dir_all(&root);
@@ -220,7 +266,7 @@ pub fn oracle(c: &Case) -> CaseResult {
         std::fs::write(cfg.join(format!("{pname}.yml")), yaml(&prof)).map_err(|e| Fail::new("harness:io", e.to_string()))?;
     }
     // decoy: another profile's file must never be read
-    let decoy = PROFILES[(c.profile as usize + 1) % PROFILES.len()].0;
+    let decoy = profile_name(c, c.profile as usize + 1);
     let mut decoy_tree = BTreeMap::new();
     decoy_tree.insert(vec!["alpha".to_string()], "v_decoy".to_string());
     decoy_tree.insert(vec!["decoy_only".to_string()], "v_decoy".to_string());
@@ -229,12 +275,12 @@ pub fn oracle(c: &Case) -> CaseResult {
     }
 
     // ---- profile selection
-    let explicit = if c.explicit_profile { Some(c.profile % PROFILES.len() as u8) } else { None };
+    let explicit = if c.explicit_profile { Some(c.profile % 6) } else { None };
     let px_profile: Option<String> = match &c.px_profile {
         PxProfile::Unset => None,
         PxProfile::Selected => Some(pname.to_string()),
         PxProfile::Unknown => Some("no_such_profile".to_string()),
-        PxProfile::OtherValid(o) => Some(PROFILES[(c.profile as usize + 1 + *o as usize % 5) % PROFILES.len()].0.to_string()),
+        PxProfile::OtherValid(o) => Some(profile_name(c, c.profile as usize + 1 + *o as usize % 5).to_string()),
     };
     let selected_ok = if c.explicit_profile { true } else { matches!(c.px_profile, PxProfile::Selected) };
     // without an explicit profile, OtherValid selects *that* profile: its file does not exist
@@ -247,7 +293,7 @@ pub fn oracle(c: &Case) -> CaseResult {
         DirMode::RelativeFromSubdir => (deep.clone(), Some(dir_name.to_string())),
         DirMode::DefaultName => (deep.clone(), None),
     };
-    let args = serde_json::to_string(&ChildArgs { dir: dir_arg, explicit_profile: explicit }).unwrap();
+    let args = serde_json::to_string(&ChildArgs { dir: dir_arg, explicit_profile: explicit, hand: c.hand_profile }).unwrap();
     let exe = std::env::current_exe().map_err(|e| Fail::new("harness:io", e.to_string()))?;
     let mut cmd = std::process::Command::new(exe);
     cmd.arg("C18-child").arg(&args).current_dir(&cwd).env_clear();
@@ -410,8 +456,9 @@ pub fn case_strategy() -> impl Strategy<Value = Case> {
         ],
         prop::bool::weighted(0.9),
         any::<bool>(),
+        prop::bool::weighted(0.3),
     )
-        .prop_map(|(keys, profile, explicit_profile, px_profile, dir, profile_file_exists, noise_env)| Case {
+        .prop_map(|(keys, profile, explicit_profile, px_profile, dir, profile_file_exists, noise_env, hand_profile)| Case {
             keys,
             profile,
             explicit_profile,
@@ -419,12 +466,13 @@ pub fn case_strategy() -> impl Strategy<Value = Case> {
             dir,
             profile_file_exists,
             noise_env,
+            hand_profile,
         })
 }
 
 pub fn main(mut chk: Check) -> ! {
     let _ = idx(0, 1);
-    chk.ev.rule = "case = 1-8 prefix-free key paths (nesting 1-3, segments with and without '_') each assigned to a non-empty subset of {base.yml, <profile>.yml, PX_ environment} with distinct string values, one of 6 derive-macro profiles (default snake_case names and custom names incl. digits/upper case), profile given explicitly and/or through PX_PROFILE (unset, right, unknown, another valid one), configuration directory absolute / relative / relative from two levels below / default name, profile file present or not, noise variables. One child process per case with a cleared environment. Oracle: value(k) = env ?? profile ?? base for every key and nothing else in the loaded map (in particular no `profile` key, no value from another profile's file); no valid profile => error; typed load of a key defined nowhere => error. non-trivial = a key defined in >=2 sources, or a nested key overridden from the environment, or a profile error; distinct = distinct serialised case".into();
+    chk.ev.rule = "case = 1-8 prefix-free key paths (nesting 1-3, segments with and without '_') each assigned to a non-empty subset of {base.yml, <profile>.yml, PX_ environment} with distinct string values, one of 6 derive-macro profiles (default snake_case names and custom names incl. digits/upper case) or of 6 profiles of a hand-written ConfigProfile implementation (names with dots, one name a dot-prefix of another), profile given explicitly and/or through PX_PROFILE (unset, right, unknown, another valid one), configuration directory absolute / relative / relative from two levels below / default name, profile file present or not, noise variables. One child process per case with a cleared environment. Oracle: value(k) = env ?? profile ?? base for every key and nothing else in the loaded map (in particular no `profile` key, no value from another profile's file); no valid profile => error; typed load of a key defined nowhere => error. non-trivial = a key defined in >=2 sources, or a nested key overridden from the environment, or a profile error; distinct = distinct serialised case".into();
     chk.ev.assume("values are strings that figment cannot re-type; key segments are lower case; a missing profile *file* is only classified (the statement does not cover it); selecting another valid profile purely through PX_PROFILE is only classified");
     if let Some(p) = chk.settings.replay.clone() {
         if !chk.replay_one::<Case, _>("precedence", &p, oracle) {
